@@ -9,16 +9,36 @@ from .absint import Sym, Unrecognised, NONE, some
 EMPTY_VEC = ("vec", ())
 
 
-def struct(prog, adt, prefix, **over):
+def struct(prog, adt, prefix, _depth=0, **over):
     """symbolic value of struct `adt`: field k is Sym('<prefix>.<k>') unless overridden"""
-    fs = [f["name"] for f in prog.adts[adt]["variants"][0]["fields"]]
-    vals = [over[f] if f in over else Sym("%s.%s" % (prefix, f)) for f in fs]
+    fds = prog.adts[adt]["variants"][0]["fields"]
+    fs = [f["name"] for f in fds]
+    vals = []
+    for f in fds:
+        if f["name"] in over:
+            vals.append(over[f["name"]])
+            continue
+        t = prog.ty(f["ty"])
+        inner = t.get("d") if t["k"] == "adt" else None
+        if inner and inner != adt and inner.startswith("scale_info::build::") and inner in prog.adts and prog.adts[inner]["kind"] == "struct" \
+                and prog.adts[inner]["variants"][0]["fields"] and _depth < 2:
+            # a private struct the builder keeps its slots in: its members are the builder's slots (same symbolic names), overrides reach them
+            sub = {k: v for k, v in over.items() if k in [g["name"] for g in prog.adts[inner]["variants"][0]["fields"]]}
+            vals.append(struct(prog, inner, prefix, _depth=_depth + 1, **sub))
+            continue
+        vals.append(Sym("%s.%s" % (prefix, f["name"])))
     return ("variant", adt.split("::")[-1], vals, 0, tuple(fs), adt)
 
 
-def field(v, name):
+def field(v, name, _depth=0):
     if isinstance(v, tuple) and v and v[0] == "variant" and len(v) > 4 and name in v[4]:
         return v[2][v[4].index(name)]
+    # a slot may sit one level down, in a private struct the builder keeps its parts in (`FieldBuilder { parts: FieldParts { name, ty, .. }, .. }`)
+    if isinstance(v, tuple) and v and v[0] == "variant" and len(v) > 5 and _depth < 2:
+        hits = [field(x, name, _depth + 1) for x in v[2] if isinstance(x, tuple) and x and x[0] == "variant" and len(x) > 5
+                and isinstance(x[5], str) and x[5].startswith("scale_info::build::") and name in (x[4] or ())]
+        if len(hits) == 1:
+            return hits[0]
     return None
 
 
